@@ -118,10 +118,12 @@ func c16Gen(c *engine.C) engine.Case {
 	topSize := []int{30, 1, 2}[c.Choose(3, "top-size")]
 	// the report directory already holds the reports of an earlier state of the tree (one more file in every subdirectory)
 	earlier := c.Bool("reports-of-an-earlier-state-present")
-	return func() engine.Result { return c16Check(files, dirs, ignored, emptyDir, include, topSize, earlier) }
+	// the order in which the languages are listed (the counter's --sort option); the files of a language keep their order
+	sortBy := engine.PickTag(c, "sort-languages-by", "default", "name", "code", "lines")
+	return func() engine.Result { return c16Check(files, dirs, ignored, emptyDir, include, topSize, earlier, sortBy) }
 }
 
-func c16Check(files []c16File, dirs, ignored []string, emptyDir bool, include string, topSize int, earlier bool) engine.Result {
+func c16Check(files []c16File, dirs, ignored []string, emptyDir bool, include string, topSize int, earlier bool, sortBy string) engine.Result {
 	var specs []FileSpec
 	for _, f := range files {
 		specs = append(specs, FileSpec{Path: filepath.Join("proj", f.Dir, f.Name), Content: c16Content(f)})
@@ -130,8 +132,8 @@ func c16Check(files []c16File, dirs, ignored []string, emptyDir bool, include st
 		specs = append(specs, FileSpec{Path: filepath.Join("proj", ig, "Hidden.java"), Content: "int hidden = 1;\nint hidden2 = 2;\n"})
 	}
 	specs = append(specs, FileSpec{Path: "proj/.keep-root", Content: ""})
-	res := engine.Result{InputKey: filesKey(specs) + fmt.Sprint(dirs, ignored, emptyDir, include, topSize, earlier),
-		Input: map[string]interface{}{"files": files, "ignored_dirs": ignored, "empty_dir": emptyDir, "include_ext": include, "top_size": topSize, "reports_of_an_earlier_state_present": earlier}, Nontrivial: len(files) > 0}
+	res := engine.Result{InputKey: filesKey(specs) + fmt.Sprint(dirs, ignored, emptyDir, include, topSize, earlier, sortBy),
+		Input: map[string]interface{}{"files": files, "ignored_dirs": ignored, "empty_dir": emptyDir, "include_ext": include, "top_size": topSize, "reports_of_an_earlier_state_present": earlier, "sort_languages_by": sortBy}, Nontrivial: len(files) > 0}
 	root, cleanup := materialise(specs)
 	defer cleanup()
 	for _, d := range dirs {
@@ -273,7 +275,11 @@ func c16Check(files []c16File, dirs, ignored []string, emptyDir bool, include st
 	}
 	// --- top-file (fresh process, fresh report directory)
 	os.RemoveAll(filepath.Join(root, "coca_reporter"))
-	r2 := runCLI(root, append([]string{"cloc", "proj", "--top-file", "--top-size", strconv.Itoa(topSize)}, extra...)...)
+	topArgs := append([]string{"cloc", "proj", "--top-file", "--top-size", strconv.Itoa(topSize)}, extra...)
+	if sortBy != "default" {
+		topArgs = append(topArgs, "--sort", sortBy)
+	}
+	r2 := runCLI(root, topArgs...)
 	if r2.Exit != 0 {
 		res.Violations = append(res.Violations, engine.V("cli", "exit-status", "coca cloc --top-file exited %d: %s", r2.Exit, trimTo(r2.Stderr+r2.Stdout, 600)))
 		res.Outcome = strings.Join(out, "\n")
